@@ -2065,8 +2065,10 @@ class Process:
                 if not path:
                     path = '[anon]'
                 else:
+                    # split(None, 5) already removed the padding in front
+                    # of the name; what follows is the file name, trailing
+                    # blanks included.
                     path = decode(path)
-                    path = path.strip()
                     if path.endswith(' (deleted)') and not path_exists_strict(
                         path
                     ):
